@@ -15,32 +15,34 @@
      tags files        := (path, tag_rule) of every spec
      contrib (p, t)    := [] if t = None; every target of the package `go list` finds for p IN THE MAGEFILE DIRECTORY,
                           stamped with alias (alias_str t) and import path p otherwise
-     own_name f        := Name or Receiver:Name;   prefixed a n := n for a = "", a:n otherwise
-     no_raw files      := no import path of the package is written as a raw (back-quoted) string literal *)
+     contributions tags := contrib of every distinct named (path, alias) pair of tags (a pair carried by several
+                          specs is ONE import) ++ contrib of every root import
+     own_name f        := Name or Receiver:Name;   prefixed a n := n for a = "", a:n otherwise *)
 From Coq Require Import Permutation.
 From Mage Require Import Base.Strs Model.ImportTag Proof.ImportTag_facts.
 
 (* the scanner implements the rule: for every spec, whatever its comment groups are (any length) *)
-Theorem C19_tag_exact : forall spec, is_raw spec = false -> tagged spec = tag_rule spec.
+Theorem C19_tag_exact : forall spec, tagged spec = tag_rule spec.
 Proof. exact tagged_is_rule. Qed.
 
-(* CURRENT code, outside the hypothesis above: an import path written as a raw string literal
-   (import `x`) is never scanned, the tag is silently ignored *)
-Theorem C19_raw_path_refuted :
-  exists spec, is_raw spec = true /\ tag_rule spec = Some (Some "one") /\ tagged spec = None.
-Proof. exact raw_path_refuted. Qed.
+(* the tree before fix 48f17db: an import path written as a raw string literal (import `x`) was
+   never scanned, the tag was silently ignored *)
+Theorem C19_raw_path_before_repair_refuted :
+  exists spec, is_raw spec = true /\ tag_rule spec = Some (Some "one") /\ tagged spec = Some (Some "one") /\
+               tagged_before_48f17db spec = None.
+Proof. exact raw_path_before_repair_refuted. Qed.
 
 (* whatever and however many comment lines precede the tag line *)
-Theorem C19_any_length : forall pre tagline trailing path,
+Theorem C19_any_length : forall pre tagline trailing path raw,
   is_import_line tagline = true ->
-  tagged {| is_doc := Some (pre ++ [tagline]); is_comment := trailing; is_path := path; is_raw := false |} = line_shape tagline.
+  tagged {| is_doc := Some (pre ++ [tagline]); is_comment := trailing; is_path := path; is_raw := raw |} = line_shape tagline.
 Proof. exact any_length. Qed.
 
 (* ... and a tag anywhere but on the last line is not a tag: the group then counts for nothing *)
-Theorem C19_only_last_line : forall pre lastline trailing path,
+Theorem C19_only_last_line : forall pre lastline trailing path raw,
   is_import_line lastline = false ->
-  tagged {| is_doc := Some (pre ++ [lastline]); is_comment := trailing; is_path := path; is_raw := false |} =
-  tagged {| is_doc := None; is_comment := trailing; is_path := path; is_raw := false |}.
+  tagged {| is_doc := Some (pre ++ [lastline]); is_comment := trailing; is_path := path; is_raw := raw |} =
+  tagged {| is_doc := None; is_comment := trailing; is_path := path; is_raw := raw |}.
 Proof. exact any_length_not_last. Qed.
 
 (* the tree before fix 73941a1 (length test == 9): a nine-line group ending in the tag was dropped *)
@@ -49,10 +51,10 @@ Theorem C19_before_repair_refuted :
 Proof. exact before_repair_refuted. Qed.
 
 (* single-line and grouped imports: which comment group is the leading one *)
-Theorem C19_single_line_import : forall doc trailing path,
+Theorem C19_single_line_import : forall doc trailing path raw,
   specs_of [[ {| gd_doc := doc; gd_lparen := false;
-                 gd_specs := [ {| is_doc := None; is_comment := trailing; is_path := path; is_raw := false |} ] |} ]] =
-  [ {| is_doc := doc; is_comment := trailing; is_path := path; is_raw := false |} ].
+                 gd_specs := [ {| is_doc := None; is_comment := trailing; is_path := path; is_raw := raw |} ] |} ]] =
+  [ {| is_doc := doc; is_comment := trailing; is_path := path; is_raw := raw |} ].
 Proof. exact single_line_import. Qed.
 
 Theorem C19_grouped_import : forall doc specs,
@@ -63,21 +65,25 @@ Section W.
 Variable golist : string -> string -> option pkginfo.      (* the go tool: directory it runs in -> import path -> package *)
 Variable dir : string.                                     (* the magefile directory *)
 
-(* every tagged spec contributes all targets of its package under its alias, untagged specs
-   nothing, and nothing else is exposed.  (Named paths distinct: see C19_one_package_two_aliases_refuted;
-   no raw path literals: see C19_raw_path_refuted.) *)
+(* the tagged specs contribute all targets of their packages under their aliases, untagged specs
+   nothing, and nothing else is exposed - for every package of files, whatever paths and aliases
+   repeat (one package under several aliases, several packages under one alias, raw literals) *)
 Theorem C19_exposes_exactly : forall files,
-  no_raw files ->
-  NoDup (map fst (named_tags (tags files))) ->
+  (forall p t, In (p, Some t) (tags files) -> golist dir p <> None) ->
+  exists imps, set_imports golist dir files = Some imps /\
+               Permutation (exposed imps) (contributions golist dir (tags files)).
+Proof. exact (exposes_exactly golist dir). Qed.
+
+(* no (path, alias) pair tagged twice: exactly the sum of what every single spec contributes *)
+Theorem C19_exposes_exactly_distinct : forall files,
+  NoDup (named_tags (tags files)) ->
   (forall p t, In (p, Some t) (tags files) -> golist dir p <> None) ->
   exists imps, set_imports golist dir files = Some imps /\
                Permutation (exposed imps) (flat_map (contrib golist dir) (tags files)).
-Proof. exact (exposes_exactly golist dir). Qed.
+Proof. exact (exposes_exactly_distinct golist dir). Qed.
 
 (* a tagged import whose package cannot be found is an error, never a silent omission *)
 Theorem C19_lookup_error : forall files p t,
-  no_raw files ->
-  NoDup (map fst (named_tags (tags files))) ->
   In (p, Some t) (tags files) -> golist dir p = None ->
   set_imports golist dir files = None.
 Proof. exact (lookup_error golist dir). Qed.
@@ -90,8 +96,7 @@ Proof. exact (untagged_nothing golist dir). Qed.
 (* several packages may share one alias: what is exposed under an alias a (a = "" for root
    imports) is the union of the contributions of all specs tagged with a *)
 Theorem C19_shared_alias : forall files a,
-  no_raw files ->
-  NoDup (map fst (named_tags (tags files))) ->
+  NoDup (named_tags (tags files)) ->
   (forall p t, In (p, Some t) (tags files) -> golist dir p <> None) ->
   exists imps, set_imports golist dir files = Some imps /\
                Permutation (filter (has_alias a) (exposed imps))
@@ -125,24 +130,27 @@ Theorem C19_start_dir_before_repair_refuted :
     set_imports_start_dir g dir files = None.
 Proof. exact start_dir_before_repair_refuted. Qed.
 
-(* outside C19_exposes_exactly's hypothesis (CURRENT code): the same package tagged under two
-   aliases is exposed under the last one only *)
-Theorem C19_one_package_two_aliases_refuted :
+(* the tree before fix 5f65f03 (importNames keyed by the path alone): the same package tagged under
+   two aliases was exposed under the last one only; the current code exposes it under both *)
+Theorem C19_one_package_two_aliases_before_repair_refuted :
   exists g dir files,
     tags files = [("ex/imp/a", Some (Some "one")); ("ex/imp/a", Some (Some "two"))] /\
     g dir "ex/imp/a" <> None /\
     option_map (fun imps => map target_name (exposed imps)) (set_imports g dir files) =
+      Some ["one:Docker:Push"; "one:Build"; "two:Docker:Push"; "two:Build"] /\
+    option_map (fun imps => map target_name (exposed imps)) (set_imports_path_keyed g dir files) =
       Some ["two:Docker:Push"; "two:Build"].
-Proof. exact one_package_two_aliases_refuted. Qed.
+Proof. exact one_package_two_aliases_before_repair_refuted. Qed.
 
 Print Assumptions C19_tag_exact.
-Print Assumptions C19_raw_path_refuted.
+Print Assumptions C19_raw_path_before_repair_refuted.
 Print Assumptions C19_any_length.
 Print Assumptions C19_only_last_line.
 Print Assumptions C19_before_repair_refuted.
 Print Assumptions C19_single_line_import.
 Print Assumptions C19_grouped_import.
 Print Assumptions C19_exposes_exactly.
+Print Assumptions C19_exposes_exactly_distinct.
 Print Assumptions C19_lookup_error.
 Print Assumptions C19_untagged_nothing.
 Print Assumptions C19_shared_alias.
@@ -150,17 +158,16 @@ Print Assumptions C19_names.
 Print Assumptions C19_imported_default_aliases_ignored.
 Print Assumptions C19_lookup_in_magefile_dir.
 Print Assumptions C19_start_dir_before_repair_refuted.
-Print Assumptions C19_one_package_two_aliases_refuted.
+Print Assumptions C19_one_package_two_aliases_before_repair_refuted.
 
 (* non-vacuity: a single-line import with a two-line group, a grouped import whose own group is
-   ignored, a tag line preceded by another tag line, a trailing tag, a tag not on the last line;
-   two packages under one alias; packages with Default/Aliases of their own *)
+   ignored, a tag line preceded by another tag line, a trailing tag on a raw path literal, a tag
+   not on the last line; two packages under one alias, one package under two aliases and twice
+   under the same one; packages with Default/Aliases of their own *)
 Example C19_nonvacuous :
-  tags w_files = [("ex/imp/a", Some None); ("ex/imp/b", Some (Some "tools")); ("ex/imp/c", Some (Some "tools")); ("ex/imp/d", None)] /\
-  no_raw w_files /\
-  NoDup (map fst (named_tags (tags w_files))) /\
+  tags w_files = w_tags /\
   (forall p t, In (p, Some t) (tags w_files) -> w_golist "build" p <> None) /\
   option_map (fun imps => map target_name (exposed imps)) (set_imports w_golist "build" w_files) =
-    Some ["tools:Docker:Push"; "tools:Build"; "tools:Docker:Push"; "tools:Build"; "Docker:Push"; "Build"].
+    Some ["ci:Docker:Push"; "ci:Build"; "tools:Docker:Push"; "tools:Build"; "tools:Docker:Push"; "tools:Build"; "Docker:Push"; "Build"].
 Proof. exact nonvacuous_c19. Qed.
 Print Assumptions C19_nonvacuous.
